@@ -8,6 +8,7 @@ import (
 	"strings"
 	"time"
 
+	"github.com/pion/stun/v3"
 	"github.com/pion/turn/v5"
 	"github.com/pion/turn/v5/internal/client"
 )
@@ -290,9 +291,20 @@ func (w *SrvWorld) staleRefresh0(rc *RealClient) bool {
 	g := rc.gaps[len(rc.gaps)-1]
 	w.Mon.mu.Lock()
 	defer w.Mon.mu.Unlock()
-	for _, a := range w.Mon.M.Allocs[ustr(rc.Addr)] {
-		if a.End != nil && a.EndCause == "refresh0" && a.Created.Lo >= g[0] && a.End.Lo >= g[1]-sec {
-			return true
+	// the server received, after the new allocation was made, an authentic Refresh with
+	// LIFETIME 0 from this client - which the application, whose socket is open, never asked for
+	client := ustr(rc.Addr)
+	for k, rs := range w.Mon.reqs {
+		if !strings.HasPrefix(k, client+"|") {
+			continue
+		}
+		for _, r := range rs {
+			if r.Method != stun.MethodRefresh || r.Auth <= 0 || r.TRecv < g[1] {
+				continue
+			}
+			if v, ok := getU32(r.Msg, attrLifetime); ok && v == 0 {
+				return true
+			}
 		}
 	}
 	return false
